@@ -67,7 +67,6 @@ func statusFilterIn(r *Run, f *core.FuncInfo, depth int) bool {
 }
 
 func init() {
-	registry["C14"].Hold = "R14e fires on coins ExecLocal (failed transfers are indexed on add but not removed); reproduction and repair in progress"
 	extend("C14", "R14e (added after a defect report from a seeding run): the add side and the remove side of a built-in executor skip the same transactions — when an executor replaces only one of ExecLocal / ExecDelLocal, the replacement applies the receipt-status filter of the generic dispatcher (callLocal: non-ExecOk receipts produce no local records) that the other side still goes through.",
 		rule("R14e", "add and remove side apply the same receipt-status filter", 3, func(r *Run) {
 			base := r.Fn("system/dapp.(*DriverBase).callLocal")
